@@ -27,7 +27,7 @@ manifest = {
     "hooks": {
         "guard": "verif",
         "enable": "go build tag: the driver builds the harness (which imports /repo through a replace directive) with -tags verif",
-        "baseline_off_cmd": "cd /repo && go test -vet=off -count=1 -timeout 20m -skip '^TestRedisUnblock$' .",
+        "baseline_off_cmd": "cd /repo && go test -json -vet=off -count=1 -timeout 20m -run '^(TestAvlDeleteLeft|TestAvlDeletePromoteLeft|TestAvlDeletePromoteLeftFull|TestAvlDeletePromoteRight|TestAvlDeleteReplace|TestAvlDeleteReplace2|TestAvlDeleteRight|TestAvlDeleteRoot|TestAvlDeleteRootWithLeft|TestAvlDeleteRootWithRight|TestAvlInsertDelete22|TestAvlInsertDelete5|TestAvlInsertDelete6|TestAvlInsertDeleteRandom|TestAvlInsertLL|TestAvlInsertLR|TestAvlInsertRL|TestAvlInsertRR|TestAvlMultiLevel|TestAvlMultiLevel2|TestAvlMultiLevel3|TestAvlMultiLevel4|TestAvlMultiLevel5|TestBitCountMissing|TestBitCountOneByteOneBit|TestBitCountOneByteZeroBit|TestBitCountTwoBytesThreeBits|TestBitOp|TestBitPos|TestBitfieldGet|TestBitfieldIncrby|TestBitfieldIncrbyNeighbors|TestBitfieldRo|TestBitfieldSetNeighbors|TestBitfieldSetResp2|TestBitfieldSetResp3|TestBundledCommands|TestGetBit|TestLongestMin|TestLongestSeqDocs|TestLongestSeqEmpty|TestLongestSeqExact|TestLongestSeqMiddleA|TestLongestSeqMiddleAt2|TestLongestSeqPrefix|TestLongestSeqSingleX|TestLongestSeqSplit|TestLongestSeqSuffix|TestRedisClientId|TestRedisClientInfo|TestRedisClientKillAddr|TestRedisClientKillId|TestRedisClientKillLAddr|TestRedisClientKillOldSyntax|TestRedisClientKillRepeated|TestRedisClientKillSkipMe|TestRedisClientKillSyntax|TestRedisClientKillTypeMaster|TestRedisClientKillTypeNormal|TestRedisClientKillTypeSlaveReplicaPubsub|TestRedisClientKillUser|TestRedisClientList|TestRedisClientName|TestRedisClientNoEvict|TestRedisClientSelect|TestRedisEcho|TestRedisPing|TestSetBit)$' .",
         "source_commits": json.load(open(os.path.join(ROOT, "hook_commits.json"))) if os.path.exists(os.path.join(ROOT, "hook_commits.json")) else [],
         "add_only": True,
     },
